@@ -36,13 +36,16 @@ def exportRun (fromNs step : Int) (s : FixState) : List MEntry :=
   s.values.zipIdx.filterMap (fun (p : Int × Nat) =>
     if p.1 = 0 then none else some ⟨s.fp, s.lbl, fromNs + (p.2 : Int) * step, p.1⟩)
 
-/-- one iteration of the loop over the incoming entries -/
-def fixStep (fromNs toNs step d : Int) (s : FixState) (e : MEntry) : FixState :=
-  let s := if !s.started ∨ e.fp ≠ s.fp then
-      { started := true, fp := e.fp, lbl := e.lbl,
-        values := List.replicate (Int.tdiv (toNs - fromNs) step + 1).toNat 0,
-        out := s.out ++ exportRun fromNs step s }
-    else s
+/-- first half of a loop iteration: a new series exports the finished one and allocates a zeroed value array -/
+def fixReset (fromNs toNs step : Int) (s : FixState) (e : MEntry) : FixState :=
+  if !s.started ∨ e.fp ≠ s.fp then
+    { started := true, fp := e.fp, lbl := e.lbl,
+      values := List.replicate (Int.tdiv (toNs - fromNs) step + 1).toNat 0,
+      out := s.out ++ exportRun fromNs step s }
+  else s
+
+/-- second half: the row's value is written to the step points from the start of its range bucket to the start of the next one -/
+def fixFill (fromNs step d : Int) (s : FixState) (e : MEntry) : FixState :=
   let idxFrom := Int.tdiv (Int.tdiv e.ts d * d - fromNs) step
   let idxTo := Int.tdiv ((Int.tdiv e.ts d + 1) * d - fromNs) step
   let len : Int := s.values.length
@@ -51,6 +54,10 @@ def fixStep (fromNs toNs step d : Int) (s : FixState) (e : MEntry) : FixState :=
     let i := if idxFrom < 0 then 0 else idxFrom
     let j := if len ≤ idxTo then len - 1 else idxTo
     { s with values := fillRange s.values i.toNat j.toNat e.value }
+
+/-- one iteration of the loop over the incoming entries -/
+def fixStep (fromNs toNs step d : Int) (s : FixState) (e : MEntry) : FixState :=
+  fixFill fromNs step d (fixReset fromNs toNs step s e) e
 
 /-- `FixPeriodPlanner.Process` on the flattened input: the initial state has no value array -/
 def fixPeriod (fromNs toNs step d : Int) (es : List MEntry) : List MEntry :=
